@@ -193,7 +193,7 @@ static void mode_stream(Case &c) {
 		lzma_stream s2 = LZMA_STREAM_INIT; s2.allocator = AL(); if (lzma_stream_decoder(&s2, UINT64_MAX, LZMA_CONCATENATED) != LZMA_OK) harness_bug("decoder init");
 		drv::Opts o2; o2.out_cap = F.plain.size() + (1u << 20);
 		drv::Result LM = drv::run(&s2, dmg.data(), dmg.size(), drv::Schedule(), o2); lzma_end(&s2);
-		g_stats.current += " mutation=" + mut;
+		{ std::string &d = g_stats.current; if (!d.empty() && d.back() == '}') { d.pop_back(); d += ",\"mutation\":\"" + mut + "\"}"; } }
 		compare(("mutated synthesised stream (" + mut + ")").c_str(), &F, dmg, F.has_bcj, XM.status, XM.out, XM.rule, LM);
 		count(XM.ok() ? "mutant_still_valid" : "mutant_invalid");
 	}
@@ -239,7 +239,7 @@ static void mode_raw(Case &c) {
 			ref::Lzma1Result R = ref::lzma1_decode(dmg.data(), dmg.size(), o.lc, o.lp, o.pb, o.dict_size, sz, allow, rout, pd.data(), pd.size(), plain.size() + (1u << 20)); rst = R.status; }
 		lzma_stream s2 = LZMA_STREAM_INIT; s2.allocator = AL(); if (lzma_raw_decoder(&s2, f) != LZMA_OK) harness_bug("raw decoder init");
 		drv::Opts o2; o2.out_cap = plain.size() + (1u << 20); drv::Result LM = drv::run(&s2, dmg.data(), dmg.size(), drv::Schedule(), o2); lzma_end(&s2);
-		g_stats.current += " mutation=" + mut;
+		{ std::string &d = g_stats.current; if (!d.empty() && d.back() == '}') { d.pop_back(); d += ",\"mutation\":\"" + mut + "\"}"; } }
 		compare(("mutated raw stream (" + mut + ")").c_str(), nullptr, dmg, false, rst, rout, rule, LM); count(rst == ref::RS_OK ? "mutant_still_valid" : "mutant_invalid"); } }
 	if (!plain.empty()) nontrivial(hcomb(hash_bytes(bytes.data(), bytes.size()), sch.hash()));
 }
